@@ -99,6 +99,9 @@ func Walk(data []byte, start, end, depth int) ([]*Box, error) {
 				b.Children = kids
 				if err != nil {
 					out = append(out, b)
+					if depth >= 16 {
+						return out, err // no further wrapping: the message would grow quadratically with the nesting depth
+					}
 					return out, fmt.Errorf("in %s at %d: %w", b.Type, pos, err)
 				}
 			}
